@@ -5,6 +5,7 @@ import Ovldverif.Model.JsonE
 import Ovldverif.Model.JsonG
 import Ovldverif.Model.JsonH
 import Ovldverif.Model.Build
+import Ovldverif.Model.BuildTree
 import Ovldverif.Model.ClassBody
 import Ovldverif.Spec.ClassSpec
 import Ovldverif.Model.Normalize
@@ -258,6 +259,37 @@ def runI (j : Json) : Except String Json := do
           ("fault", match fault with | none => Json.null | some n => toJson n)])
   return Json.mkObj [("ops", Json.arr out)]
 
+/-- layer T: a function and a linked variant under failing builds (`Model/BuildTree.lean`) -/
+def runT (j : Json) : Except String Json := do
+  let bad ← (← jArr (jFieldD j "bad" (Json.arr #[]))).toList.mapM jNat
+  let conflict ← (← jArr (jFieldD j "conflict" (Json.arr #[]))).toList.mapM jNat
+  let cfg : Build.Cfg := { bad := fun d => bad.contains d,
+                           namesOK := fun ds => !(ds.any (fun d => conflict.contains d) && ds.length ≥ 2) }
+  let old := match jFieldD j "old" (Json.bool false) with | Json.bool b => b | _ => false
+  let ops ← jArr (← jField j "ops")
+  let mut t : Build.T := {}
+  let mut out : Array Json := #[]
+  for op in ops do
+    let a ← jArr op
+    let kind ← jStr a[0]!
+    let flag := fun (i : Nat) => match a[i]? with | some (Json.bool true) => true | _ => false
+    let top : Build.TOp ← (match kind with
+      | "regP" => do pure (Build.TOp.regP (← jNat a[1]!) (flag 2) (flag 3))
+      | "unregP" => do pure (Build.TOp.unregP (← jNat a[1]!) (flag 2) (flag 3))
+      | "regC" => do pure (Build.TOp.regC (← jNat a[1]!) (flag 2))
+      | "callP" => do
+        let r ← jStr a[1]!
+        pure (Build.TOp.callP (if r == "fn" then .fn else .obj) (flag 2))
+      | "callC" => do
+        let r ← jStr a[1]!
+        pure (Build.TOp.callC (if r == "fn" then .fn else .obj) (flag 2))
+      | _ => throw s!"bad op {kind}")
+    let (t', o) := if old then Build.stepOld cfg t top else Build.stepT cfg t top
+    t := t'
+    out := out.push (Json.mkObj [("out", bOutJson o), ("p", bStateJson t.p), ("c", bStateJson t.c), ("own", toJson t.own),
+      ("safe", toJson t.safe)])
+  return Json.mkObj [("ops", Json.arr out)]
+
 /-- layer J: class bodies under the overloading metaclass (`Model/ClassBody.lean`) -/
 def runJ (j : Json) : Except String Json := do
   let cfg ← cfgOfJson j
@@ -432,6 +464,7 @@ def runLine (line : String) : String :=
       | "G" => runG j
       | "H" => runH j
       | "I" => runI j
+      | "T" => runT j
       | "J" => runJ j
       | "B" => runB j
       | _ => throw s!"unknown layer {layer}"
